@@ -29,13 +29,13 @@ var genesisFieldRegion = map[string]string{
 	"TokenMessengerList":                "RemoteTokenMessenger/value/",
 }
 
-// keyed lists: duplicate-detection key term per list (elements written p0.<List>[*])
+// keyed lists: duplicate-detection key term per list (elements written p0.<List>[#i0])
 var genesisListKey = map[string]string{
-	"AttesterList":            "string(types.AttesterKey([]byte(p0.AttesterList[*].Attester)))",
-	"PerMessageBurnLimitList": "string(types.PerMessageBurnLimitKey(p0.PerMessageBurnLimitList[*].Denom))",
-	"TokenPairList":           "string(types.TokenPairKey(p0.TokenPairList[*].RemoteDomain,p0.TokenPairList[*].RemoteToken))",
-	"UsedNoncesList":          "string(types.UsedNonceKey(p0.UsedNoncesList[*].Nonce,p0.UsedNoncesList[*].SourceDomain))",
-	"TokenMessengerList":      "string(types.RemoteTokenMessengerKey(p0.TokenMessengerList[*].DomainId))",
+	"AttesterList":            "string(types.AttesterKey([]byte(p0.AttesterList[#i0].Attester)))",
+	"PerMessageBurnLimitList": "string(types.PerMessageBurnLimitKey(p0.PerMessageBurnLimitList[#i0].Denom))",
+	"TokenPairList":           "string(types.TokenPairKey(p0.TokenPairList[#i0].RemoteDomain,p0.TokenPairList[#i0].RemoteToken))",
+	"UsedNoncesList":          "string(types.UsedNonceKey(p0.UsedNoncesList[#i0].Nonce,p0.UsedNoncesList[#i0].SourceDomain))",
+	"TokenMessengerList":      "string(types.RemoteTokenMessengerKey(p0.TokenMessengerList[#i0].DomainId))",
 }
 
 // optional fields and their documented defaults when absent
@@ -114,13 +114,13 @@ func runC17(p *Prog, r *Report, tier string) {
 			// every element: the stored value is the loop element, and the loop ranges over the whole list
 			each := false
 			for _, v := range vals {
-				if v == "k.cdc.MustMarshal(&p2."+f+"[*])" {
+				if v == "k.cdc.MustMarshal(&p2."+f+"[#i0])" {
 					each = true
 				}
 			}
 			whole := false
 			for _, ii := range ci.ifs {
-				if ii.atom.Key == "((phi(-1|@) + 1) < len(p2."+f+"))" || ii.atom.Key == "(phi((@ + 1)|0) < len(p2."+f+"))" {
+				if ii.atom.Key == "(#i0 < len(p2."+f+"))" {
 					whole = true
 				}
 			}
@@ -306,7 +306,7 @@ func runC17(p *Prog, r *Report, tier string) {
 		// the loop ranges over the whole list: header test is index < len(list)
 		full := false
 		for _, ii := range cv.ifs {
-			if ii.atom.Key == "((phi(-1|@) + 1) < len(p0."+list+"))" {
+			if ii.atom.Key == "(#i0 < len(p0."+list+"))" {
 				full = true
 			}
 		}
